@@ -78,7 +78,10 @@ class P(Prop):
                 "Track.extract with begin > end giving an empty track), and segmentation.segmentation() (per-observation AND/OR fold of "
                 "value <= thresholds_max[index], NaN skipped, the `len(thresholds_max) >= index` guard with its IndexError / "
                 "float-max default, marker = not fold)")
-    rule = ("split: ALL 2^n marker vectors for n = 1..10 (quick) / 1..12 (thorough) on tracks whose observations carry unique tags, plus marker "
+    rule = ("HISTORY: about half of the segmentation cases run on a track whose output feature already exists (left by a previous "
+            "segmentation() with other thresholds/mode, created by the user with 0/1/2/0.5/NaN values, or all 1s), or write the marker into one "
+            "of the tested features; other features (incl. names like #mark, #0, marker, out), uid and tid vary; oracle and model are about the LAST call only. "
+            "split: ALL 2^n marker vectors for n = 1..10 (quick) / 1..12 (thorough) on tracks whose observations carry unique tags, plus marker "
             "features holding values other than 0/1 (2, 0.5, NaN, 1.0, True); segmentation: for 1..3 tested features and both modes every "
             "combination of {below, equal, above, NaN} per feature (as one track and as single-observation tracks), random dyadic values with "
             "NaN, scalar (non-list) arguments, more thresholds than features, then split on the produced marker; malformed stream: fewer "
@@ -113,6 +116,8 @@ class P(Prop):
         for _ in range(300 if tier == "quick" else 3000):
             n = rng.randrange(1, 9)
             out.append({"kind": "splitv", "vals": [rng.choice(toks) if rng.random() < 0.6 else rng.choice(["0", "1"]) for _ in range(n)]})
+            if rng.random() < 0.5:
+                out[-1]["env"] = self.rand_env(rng)
         # grids
         for ths in self.THS:
             for k in (1, 2, 3):
@@ -128,6 +133,10 @@ class P(Prop):
                     out.append({"kind": "seg", "mode": mode, "ths": ths[:k], "rows": sh, "scalar": False, "split": True})
                     for r in rows:
                         out.append({"kind": "seg", "mode": mode, "ths": ths[:k], "rows": [r], "scalar": (k == 1 and rng.random() < 0.5), "split": True})
+                    # the same grid with the output feature already present (stale 1s everywhere / previous call / user values)
+                    out.append({"kind": "seg", "mode": mode, "ths": ths[:k], "rows": rows, "scalar": False, "split": True, "pre": {"type": "all1"}})
+                    for _ in range(3):
+                        out.append(self.with_history(rng, {"kind": "seg", "mode": mode, "ths": ths[:k], "rows": sh, "split": True}, [Fraction(x, 2) for x in range(-6, 7)]))
         # random
         pool = [Fraction(x, 2) for x in range(-6, 7)]
         for _ in range(1500 if tier == "quick" else 30000):
@@ -140,7 +149,50 @@ class P(Prop):
             rows = [["nan" if rng.random() < pn else ratstr(rng.choice(pool)) for _ in range(k)] for _ in range(n)]
             out.append({"kind": "seg", "mode": rng.choice(["and", "or"]), "ths": [ratstr(t) for t in ths], "rows": rows,
                         "scalar": (k == 1 and nth == 1 and rng.random() < 0.3), "split": rng.random() < 0.7})
+            if nth >= k and rng.random() < 0.6:
+                out.append(self.with_history(rng, out[-1], pool))
         return out
+
+    TEMP_NAMES = ["#mark", "#0", "#1", "marker", "out", "tag2", "comp", "idx2", "seuil_max"]
+
+    def rand_env(self, rng):
+        """hidden state neither function should read: uid/tid, other features (incl. names like the code's temporaries)"""
+        env = {}
+        if rng.random() < 0.5:
+            env["uid"] = rng.choice([0, 7, "7", "a.b", "trk-1", 123456, ""])
+        if rng.random() < 0.3:
+            env["tid"] = rng.choice([0, 1, "t", 42])
+        if rng.random() < 0.6:
+            names = rng.sample(self.TEMP_NAMES, rng.randrange(1, 4))
+            env["extra"] = [[nm, rng.choice(["0", "1", "2", "nan", "0.5", "-1"])] for nm in names]
+            env["extra_after"] = rng.random() < 0.3      # created after the tested features instead of before
+        return env
+
+    def rand_pre(self, rng, k, n, pool):
+        """what the output feature holds BEFORE the call whose result is compared"""
+        r = rng.random()
+        if r < 0.45:   # left by a previous segmentation() with other thresholds / mode
+            return {"type": "seg", "mode": rng.choice(["and", "or"]),
+                    "ths": [ratstr(rng.choice(pool + [Fraction(-100), Fraction(100)])) for _ in range(k)]}
+        if r < 0.85:   # created by the user with arbitrary values
+            return {"type": "vals", "vals": [rng.choice(["0", "1", "1", "2", "0.5", "nan", "1.0", "True", "-1"]) for _ in range(n)]}
+        return {"type": "all1"}
+
+    def with_history(self, rng, case, pool):
+        """variants of a seg case with a pre-existing output feature / output named like a tested feature / other hidden state"""
+        k = len(case["rows"][0]) if case["rows"] else 0
+        n = len(case["rows"])
+        c = dict(case)
+        c.pop("scalar", None)
+        c["scalar"] = False
+        r = rng.random()
+        if r < 0.7:
+            c["pre"] = self.rand_pre(rng, k, n, pool)
+        elif k >= 1:
+            c["outname"] = "f%d" % rng.randrange(k)      # the marker overwrites one of the tested features
+        c["env"] = self.rand_env(rng)
+        c["split"] = True
+        return c
 
     def in_domain(self, case):
         if case["kind"] == "seg":
@@ -157,6 +209,9 @@ class P(Prop):
             t["mode"] = case["mode"]
             t["features"] = len(case["rows"][0])
             t["domain"] = "in" if self.in_domain(case) else "fewer-thresholds"
+            t["history"] = (case["pre"]["type"] if case.get("pre") else "out=" + case["outname"][:1] if case.get("outname") else "fresh")
+        if case.get("env"):
+            t["env"] = "+".join(sorted(k for k in case["env"] if k != "extra_after"))
         return t
 
     def nontrivial(self, case):
@@ -167,12 +222,29 @@ class P(Prop):
         return any(v != "nan" for r in case["rows"] for v in r)
 
     # ---------------------------------------------------------------- implementation
-    def track(self, n):
-        t = self.Track([], 7)
+    def track(self, n, env=None):
+        env = env or {}
+        t = self.Track([], env.get("uid", 7), env.get("tid", 0)) if "tid" in env else self.Track([], env.get("uid", 7))
         for i in range(n):
             t.addObs(self.Obs(self.ENU(float(i), float(2 * i), 0.0), self.T.readUnixTime(i)))
         t.createAnalyticalFeature("tag", list(range(n)))
+        if not env.get("extra_after"):
+            self.extras(t, env)
         return t
+
+    def extras(self, t, env):
+        for nm, tok in (env or {}).get("extra", []):
+            self.setfeat(t, nm, [VALS.get(tok, None) if tok in VALS else fval(tok)] * t.size())
+
+    @staticmethod
+    def setfeat(t, name, vals):
+        """create the feature, or overwrite it when it exists (createAnalyticalFeature silently keeps an existing one)"""
+        if t.size() == 0:
+            return
+        if t.hasAnalyticalFeature(name):
+            t.updateAnalyticalFeature(name, list(vals))
+        else:
+            t.createAnalyticalFeature(name, list(vals))
 
     def pieces_of(self, coll):
         pieces, uids = [], []
@@ -190,8 +262,10 @@ class P(Prop):
         k = case["kind"]
         if k in ("split", "splitv"):
             vals = [int(c) for c in case["m"]] if k == "split" else [VALS[v] for v in case["vals"]]
-            t = self.track(len(vals))
-            t.createAnalyticalFeature("marker", list(vals))
+            t = self.track(len(vals), case.get("env"))
+            self.setfeat(t, "marker", list(vals))
+            if (case.get("env") or {}).get("extra_after"):
+                self.extras(t, {"extra": [e for e in case["env"].get("extra", []) if e[0] != "marker"]})
             pieces, uids = self.pieces_of(self.S.split(t, "marker"))
             # the source track must be left as it was
             if [t.getObsAnalyticalFeature("tag", i) for i in range(t.size())] != list(range(len(vals))):
@@ -199,22 +273,35 @@ class P(Prop):
             return {"pieces": pieces, "uids": uids}
         if k == "seg":
             rows = case["rows"]
-            t = self.track(len(rows))
+            env = case.get("env") or {}
+            t = self.track(len(rows), env)
             names = ["f%d" % j for j in range(len(rows[0]))]
             for j, nm in enumerate(names):
-                t.createAnalyticalFeature(nm, [fval(r[j]) for r in rows])
+                self.setfeat(t, nm, [fval(r[j]) for r in rows])
+            outname = case.get("outname", "out")
+            if env.get("extra_after"):
+                self.extras(t, {"extra": [e for e in env.get("extra", []) if e[0] != outname]})
             ths = [fval(x) for x in case["ths"]]
             mode = self.S.MODE_COMPARAISON_AND if case["mode"] == "and" else self.S.MODE_COMPARAISON_OR
+            # history: what the output feature holds before the call whose result is compared
+            pre = case.get("pre")
+            if pre:
+                if pre["type"] == "seg":
+                    pm = self.S.MODE_COMPARAISON_AND if pre["mode"] == "and" else self.S.MODE_COMPARAISON_OR
+                    self.S.segmentation(t, names, outname, [fval(x) for x in pre["ths"]], pm)
+                elif pre["type"] == "vals":
+                    self.setfeat(t, outname, [VALS[v] for v in pre["vals"]])
+                else:
+                    self.setfeat(t, outname, [1] * t.size())
             if case.get("scalar"):
-                self.S.segmentation(t, names[0], "out", ths[0], mode)
+                self.S.segmentation(t, names[0], outname, ths[0], mode)
             else:
-                self.S.segmentation(t, names, "out", ths, mode)
-            mk = [t.getObsAnalyticalFeature("out", i) for i in range(t.size())]
-            if any(not (isinstance(v, int) and not isinstance(v, bool) and v in (0, 1)) for v in mk):
-                raise ValueError("marker values are not the integers 0/1: %s" % mk)
-            out = {"markers": "".join(str(v) for v in mk)}
+                self.S.segmentation(t, names, outname, ths, mode)
+            mk = [t.getObsAnalyticalFeature(outname, i) for i in range(t.size())]
+            # 1 / 0 by value (1.0 or True would do as well); anything else (stale 0.5, NaN, 2) is shown as '?'
+            out = {"markers": "".join("1" if v == 1 else "0" if v == 0 else "?" for v in mk)}
             if case.get("split"):
-                out["pieces"], out["uids"] = self.pieces_of(self.S.split(t, "out"))
+                out["pieces"], out["uids"] = self.pieces_of(self.S.split(t, outname))
             return out
         raise ValueError(k)
 
@@ -313,11 +400,19 @@ class P(Prop):
                     yield {"kind": "splitv", "vals": v[:i] + v[i + 1:]}
         else:
             rows = case["rows"]
+            if case.get("env"):
+                yield {k_: v for k_, v in case.items() if k_ != "env"}
+            if case.get("pre") and case["pre"]["type"] != "all1":
+                yield dict(case, pre={"type": "all1"})
             for i in range(len(rows)):
                 if len(rows) > 1:
-                    yield dict(case, rows=rows[:i] + rows[i + 1:])
+                    c2 = dict(case, rows=rows[:i] + rows[i + 1:])
+                    if case.get("pre", {}).get("type") == "vals":
+                        v = case["pre"]["vals"]
+                        c2["pre"] = {"type": "vals", "vals": v[:i] + v[i + 1:]}
+                    yield c2
             kf = len(rows[0])
-            if kf > 1 and len(case["ths"]) >= kf:
+            if kf > 1 and len(case["ths"]) >= kf and not case.get("pre") and not case.get("outname"):
                 for j in range(kf):
                     yield dict(case, rows=[r[:j] + r[j + 1:] for r in rows], ths=case["ths"][:j] + case["ths"][j + 1:], scalar=False)
             if case.get("split"):
